@@ -44,12 +44,23 @@ type Solver struct {
 }
 
 func NewSolver(tt *TermTable, kind string, timeoutMs int) (*Solver, error) {
+	return newSolver(tt, kind, timeoutMs, false)
+}
+
+// newSolver: oneShot processes answer a single query and get a hard
+// process-level time limit as well (z3 4.8.12 does not always honour the
+// soft :timeout option).
+func newSolver(tt *TermTable, kind string, timeoutMs int, oneShot bool) (*Solver, error) {
 	var cmd *exec.Cmd
+	hard := []string{}
+	if oneShot {
+		hard = []string{fmt.Sprintf("-T:%d", timeoutMs/1000+2)}
+	}
 	switch kind {
 	case "z3":
-		cmd = exec.Command("z3", "-in")
+		cmd = exec.Command("z3", append([]string{"-in", "-memory:6000"}, hard...)...)
 	case "z3-new":
-		cmd = exec.Command("z3-new", "-in")
+		cmd = exec.Command("z3-new", append([]string{"-in", "-memory:6000"}, hard...)...)
 	case "cvc5":
 		cmd = exec.Command("cvc5", "--incremental", "--lang=smt2", "--produce-models", fmt.Sprintf("--tlimit-per=%d", timeoutMs))
 	case "cvc5-int":
@@ -185,6 +196,13 @@ func (s *Solver) readLine() string {
 func (s *Solver) Check(wantModel bool) (Result, *Model) {
 	t0 := time.Now()
 	s.Queries++
+	// watchdog: a back end that ignores its soft limit is killed; the read
+	// below then sees EOF and the query counts as unknown
+	if s.cmd != nil && s.timeoutMs > 0 {
+		proc := s.cmd.Process
+		wd := time.AfterFunc(time.Duration(2*s.timeoutMs+5000)*time.Millisecond, func() { proc.Kill() })
+		defer wd.Stop()
+	}
 	s.send("(check-sat)")
 	var r Result
 	for {
